@@ -11,7 +11,7 @@ Correspondence
     stage (window flag, q_e, updated top temperature), and run against run (prefix before the
     window, whole run when the window never opens).
 Monitored (evaluated at Float on a 0.01 K grid, no theorem): `triple_point_coincide`,
-`p_ice_le_p_liq_below`, monotonicity of the liquid curve on [123, 235) K.
+`p_ice_le_p_liq_below` (the grid monotonicity of both curves is kept as a test of the proved clauses).
 """
 from __future__ import annotations
 
@@ -34,7 +34,9 @@ TECHNIQUE = ("Lean 4 proof over a model GENERATED from the source by harness/tra
              "(+ differential check)")
 THEOREMS = [
     dict(name="Snow.C20.p_ice_strictMono", clause="vapour pressure over ice increases strictly with T on (0, 400] K", strength="full"),
-    dict(name="Snow.C20.p_liq_strictMono_partial", clause="vapour pressure over liquid water increases strictly with T on [235, 332] K (the validity range is 123-332 K; [123, 235) is monitored only)", strength="partial"),
+    dict(name="Snow.C20.p_liq_strictMono", clause="vapour pressure over liquid water increases strictly with T on its whole range of validity [123, 332] K", strength="full"),
+    dict(name="Snow.C20.p_liq_strictMono_low", clause="lemma: the same on [123, 235] K (tanh changes sign at 218.8 K)", strength="lemma"),
+    dict(name="Snow.C20.p_liq_strictMono_partial", clause="lemma: the same on [235, 332] K", strength="lemma"),
     dict(name="Snow.C20.flux_zero_at_equilibrium", clause="flux is zero at equal pressures and temperatures", strength="full"),
     dict(name="Snow.C20.flux_pos_iff", clause="flux is positive exactly when the surface vapour pressure exceeds the chamber pressure", strength="full"),
     dict(name="Snow.C20.flux_mono_pvap", clause="flux increases strictly with the surface vapour pressure", strength="full"),
@@ -55,7 +57,6 @@ THEOREMS = [
     dict(name="Snow.C20.evap_cools_iff", clause="inside the window q_e <= 0 iff p_vap >= p_vac (T_l = T_v > 0)", strength="full"),
     dict(name="monitored:triple_point_coincide", clause="the two curves coincide at the triple point (273.16 K): NO theorem, evaluated at Float on every run (relative gap <= 1e-6)", strength="monitored"),
     dict(name="monitored:p_ice_le_p_liq_below", clause="p_ice <= p_liq below the triple point: NO theorem, evaluated on the 0.01 K grid 123-273.15 K on every run", strength="monitored"),
-    dict(name="monitored:p_liq_strictMono_123_235", clause="liquid curve strictly increasing on [123, 235) K: NO theorem, evaluated on the 0.01 K grid on every run", strength="monitored"),
     dict(name="monitored:visf_eq_shelf_2D_and_solidification_prefix", clause="2D runs and the solidification-stage prefix of 1D runs before the window: NO run-level theorem (2D model has only the q_e link), real 1D run pairs are compared on every run", strength="monitored"),
     dict(name="Snow.C20.nonvacuous", clause="hypotheses are satisfiable (default VISF parameters)", strength="nonvacuity"),
 ]
@@ -70,7 +71,6 @@ ASSUMPTIONS = [
     "evaporation coefficient in (0,1], T > 0, m_water, k_B, dHe > 0 (flux theorems)",
     "triple_point_coincide and p_ice_le_p_liq_below are numeric facts about exp/log at specific reals: NOT proved, "
     "evaluated at Float on a 0.01 K grid on every run (monitored test clause)",
-    "liquid curve strictly increasing on [123, 235) K: NOT proved, monitored on the same grid",
     "run-level clause 'outside the window a VISF run is identical to the shelf run' is proved by induction for a loop "
     "whose body is an ARBITRARY function of (q_e, step index, state): that the configuration enters the 1D loop body "
     "only through q_e is the modelling assumption, checked on real paired 1D runs (bitwise prefix / whole-run "
@@ -82,22 +82,21 @@ RULE = ("(a) batches of random (T, p_vac, p_vap, kappa, m, k_B, T_l, T_v) incl. 
         "shelf with random vacuum windows (before nucleation, straddling it, during solidification, beyond t_tot, "
         "empty); a run case is non-trivial when both runs complete")
 EXPLANATION = ("Lean theorems over the reals about the generated utils formulas and the hand window model + "
-               "differential check against utils.* and real Snowing runs; triple point coincidence, p_ice <= p_liq "
-               "below it and liquid monotonicity below 235 K are a monitored TEST on a grid, not a theorem")
+               "differential check against utils.* and real Snowing runs; triple point coincidence and p_ice <= p_liq "
+               "below it are a monitored TEST on a grid, not a theorem")
 PARALLEL = True
 LEVEL_TEXT = (
     "Lean 4 theorems (exact real arithmetic) about Lean definitions GENERATED from utils.py by harness/translate.py on "
     "every run (vapour_pressure_liquid, vapour_pressure_solid, vapour_flux) and about a hand-written model of the top "
     "boundary of the 1D loops; the generated text is rebuilt and the theorems re-checked on every run, the window "
     "model is tied to /repo by a differential check against real paired 1D VISF/shelf runs (bit-for-bit on the top "
-    "node, step by step). Proved in full: ice curve strictly increasing on (0,400] K; flux zero at equilibrium, "
+    "node, step by step). Proved in full: ice curve strictly increasing on (0,400] K and liquid curve strictly "
+    "increasing on its whole validity range [123,332] K; flux zero at equilibrium, "
     "positive iff p_vap > p_vac, strictly increasing in p_vap, closed form and strict monotonicity in kappa on (0,1]; "
     "q_e is -N_w dHe exactly for VISF strictly inside the window and 0 otherwise; outside the window the VISF step of "
-    "the top node equals the shelf step; inside it q_e <= 0 iff p_vap >= p_vac. Partial: liquid curve strictly "
-    "increasing on [235,332] K only; the run-level identity of VISF and shelf before the window is proved for a loop "
-    "body abstracted to an arbitrary function of q_e and state (that abstraction is checked on real runs). NOT proved, only evaluated on every run (test): coincidence of the two curves at "
-    "the triple point (rel. 1e-6), p_ice <= p_liq on the 0.01 K grid below 273.15 K, liquid curve increasing on "
-    "[123,235) K.")
+    "the top node equals the shelf step; inside it q_e <= 0 iff p_vap >= p_vac; the run models' qEvap (1D, 2D) are this "
+    "q_e, and on the real 1D model a VISF run whose window is not met equals the shelf run. NOT proved, only evaluated on every run (test): coincidence of the two curves at "
+    "the triple point (rel. 1e-6), p_ice <= p_liq on the 0.01 K grid below 273.15 K; 2D run-level identity.")
 
 
 # the hand transcription of the two correlations used by the Snowing 1D/2D models (SnowModel/EvapFormulas.lean)
@@ -512,7 +511,7 @@ def predicates(case, impl):
         # monotone curves on the sorted sample
         T = case["T"]
         order = sorted(range(len(T)), key=lambda i: T[i])
-        for nm, lo, hi in (("solid", 0.0, 400.0), ("liquid", 235.0, 332.0)):
+        for nm, lo, hi in (("solid", 0.0, 400.0), ("liquid", 123.0, 332.0)):
             prev = None
             for i in order:
                 if not (lo < T[i] <= hi) or (nm == "liquid" and T[i] < lo):
@@ -539,7 +538,7 @@ def predicates(case, impl):
         for nm, arr in (("liquid", pl), ("solid", ps)):
             for i in range(len(T) - 1):
                 if not arr[i + 1] > arr[i]:
-                    cls = "proved-range" if (nm == "solid" or T[i] >= 235.0) else "monitored-range"
+                    cls = "proved-range" if (nm == "solid" or T[i] >= 123.0) else "monitored-range"
                     out.append(Failure(clause=f"p_{nm}_strictMono", key=f"p_{nm}_strictMono|utils|grid-{cls}",
                                        detail=f"{nm}: not increasing between {T[i]:.2f} and {T[i+1]:.2f} K"))
                     break
